@@ -937,6 +937,49 @@ def beta_unit_width_oracle(ctx, seed, deep):
     return checked
 
 
+def heavy_t_oracle(ctx, seed, deep):
+    """StudentT generating laws heavier-tailed than Cauchy (df 0.5, 0.7), n = 1000: (1) exact - the stored df/loc/scale are what
+    scipy.stats.t.fit returned (recording proxy); (2) DKW, 80 %-family style: a dataset passes iff sup|F_fit - F_true| <= eps'_n and
+    sup|F_fit - ECDF| <= 2 eps'_n (clean tree: sqrt(n)*sup <= 1.0 against 1.95 / 3.9 on 16 datasets); flagged when fewer than
+    half of the datasets pass."""
+    import copulas.univariate.student_t as st
+    from copulas.univariate import StudentTUnivariate
+    n = 1000
+    e = band_d(n)
+    checked = passed = 0
+    worst = []
+    cases = [(df, j) for df in (0.5, 0.7) for j in range(4 if deep else 3)]
+    for df, j in cases:
+        loc, scale = [(3.0, 2.0), (-40.0, 0.5), (0.0, 10.0), (7.0, 1.0)][j]
+        dist = stats.t(df, loc=loc, scale=scale)
+        X = np.asarray(dist.rvs(n, random_state=vc.np_rng(seed, 'C04', 'heavy-t', df, j)), dtype=float)
+        real = st.t
+        proxy = FitProxy(real)
+        st.t = proxy
+        try:
+            m = StudentTUnivariate()
+            m.fit(X)
+        finally:
+            st.t = real
+        checked += 1
+        ctx.count('dkw.studentT.heavy-tailed')
+        inp = {'df': df, 'loc': loc, 'scale': scale, 'n': n, 'seed': seed, 'data_path': ['heavy-t', df, j]}
+        if len(proxy.returned) == 1 and not params_equal(m._params, dict(zip(['df', 'loc', 'scale'], proxy.returned[0]))):
+            ctx.fail_input('StudentTUnivariate.fit', inp, {'_params': vc.jsonable(m._params), 'scipy_fit_returned': vc.jsonable(proxy.returned)},
+                           '_params = the tuple scipy.stats.t.fit returned, under the names df, loc, scale', 'StudentTUnivariate.fit:param-map')
+        d_true, d_emp = sup_dists(m.cumulative_distribution, dist, X)
+        ok = d_true <= e and d_emp <= 2 * e
+        passed += ok
+        if not ok:
+            worst.append(dict(inp, d_true=d_true, d_emp=d_emp, fitted=vc.jsonable(m._params)))
+    if passed < 0.5 * len(cases):
+        ctx.fail_input('StudentTUnivariate.fit', {'generating': 'StudentT df in {0.5, 0.7}', 'n': n, 'seed': seed, 'datasets': len(cases)},
+                       {'passed': passed, 'of': len(cases), 'band': e, 'failing': worst[:4]},
+                       'heavy-tailed StudentT samples: fitted CDF within eps\'_n / 2 eps\'_n of the generating / empirical CDF',
+                       'StudentTUnivariate.fit:dkw:heavy-tailed')
+    return checked
+
+
 SWEEP_SIZES = [1023, 1024, 1025, 2049, 4097, 5000]
 
 
@@ -1581,6 +1624,7 @@ def search(ctx, deep, seed=None):
     checked += kde_resample_oracle(ctx, seed, deep)
     checked += large_offset_oracle(ctx, seed, deep)
     checked += size_sweep_oracle(ctx, seed, deep)
+    checked += heavy_t_oracle(ctx, seed, deep)
     checked += stored_form_oracle(ctx, seed, deep)
     checked += models_alive_oracle(ctx, seed, deep)
     checked += wrapper_route_oracle(ctx, seed, deep)
